@@ -6,6 +6,7 @@ import (
 	"io"
 	"os"
 	"os/exec"
+	"sort"
 	"strconv"
 	"strings"
 	"time"
@@ -35,6 +36,7 @@ type Solver struct {
 	NSat    int
 	NUnsat  int
 	NUnk    int
+	Slow    int
 	Time    time.Duration
 	timeout int // ms
 	dead    bool
@@ -345,11 +347,35 @@ func (s *Solver) Check(conj []*T, want []*T) (Result, *Model) {
 	for _, v := range want {
 		s.ref(v, &defs)
 	}
+	ufApps := collectUF(conj)
 	s.send(defs.String())
 	s.send("(push 1)\n" + asserts.String() + "(check-sat)\n")
-	line, err := s.readLine()
-	for err == nil && line == "" {
-		line, err = s.readLine()
+	// watchdog: a solver that ignores its own timeout is killed and the query counts as unknown
+	type lineRes struct {
+		line string
+		err  error
+	}
+	ch := make(chan lineRes, 1)
+	go func() {
+		l, e := s.readLine()
+		for e == nil && l == "" {
+			l, e = s.readLine()
+		}
+		ch <- lineRes{l, e}
+	}()
+	var line string
+	var err error
+	select {
+	case r := <-ch:
+		line, err = r.line, r.err
+	case <-time.After(time.Duration(s.timeout)*time.Millisecond + 5*time.Second):
+		s.Slow++
+		if s.cmd != nil && s.cmd.Process != nil {
+			s.cmd.Process.Kill()
+		}
+		r := <-ch
+		line, err = r.line, fmt.Errorf("solver watchdog")
+		_ = r
 	}
 	res := Unknown
 	switch {
@@ -380,6 +406,28 @@ func (s *Solver) Check(conj []*T, want []*T) (Result, *Model) {
 				res = Unknown
 			} else {
 				parseValues(txt, want, model)
+			}
+		}
+		if res == Sat && len(ufApps) > 0 {
+			var q strings.Builder
+			q.WriteString("(get-value (")
+			for _, u := range ufApps {
+				q.WriteString("t" + strconv.Itoa(int(u.ID)) + " ")
+			}
+			q.WriteString("))\n")
+			s.send(q.String())
+			txt, err := s.readSexp()
+			if err != nil || strings.Contains(txt, "(error") {
+				s.dead = true
+				res = Unknown
+			} else {
+				vals := parseValueList(txt, len(ufApps))
+				// apps are sorted by ID, so arguments (smaller IDs) are evaluated first
+				for i, u := range ufApps {
+					if i < len(vals) {
+						model.UF[s.ctx.ufKey(u, model)] = vals[i]
+					}
+				}
 			}
 		}
 	}
@@ -496,4 +544,100 @@ func parseValues(txt string, want []*T, m *Model) {
 			m.V[t] = v
 		}
 	}
+}
+
+// hasUF reports (memoised on the immutable term) whether t contains a UF application.
+func hasUF(t *T) bool {
+	if t == nil || t.Op == OConst || t.Op == OVar {
+		return false
+	}
+	if t.ufState != 0 {
+		return t.ufState == 2
+	}
+	r := t.Op == OUF
+	if !r {
+		for _, k := range t.kids() {
+			if hasUF(k) {
+				r = true
+				break
+			}
+		}
+	}
+	if r {
+		t.ufState = 2
+	} else {
+		t.ufState = 1
+	}
+	return r
+}
+
+// collectUF lists the uninterpreted-function applications occurring in conj, sorted by ID.
+func collectUF(conj []*T) []*T {
+	seen := map[*T]bool{}
+	var out []*T
+	var walk func(t *T)
+	walk = func(t *T) {
+		if t == nil || seen[t] || !hasUF(t) {
+			return
+		}
+		seen[t] = true
+		for _, k := range t.kids() {
+			walk(k)
+		}
+		if t.Op == OUF {
+			out = append(out, t)
+		}
+	}
+	for _, t := range conj {
+		walk(t)
+	}
+	sort.Slice(out, func(i, j int) bool { return out[i].ID < out[j].ID })
+	return out
+}
+
+// parseValueList parses ((expr val) (expr val) ...) returning the values in order.
+func parseValueList(txt string, n int) []uint64 {
+	var out []uint64
+	// values are the last token before each closing of a pair; scan for #x / #b / true / false tokens
+	// at depth 2 end.  Simple approach: split pairs by tracking depth.
+	depth := 0
+	start := -1
+	for i := 0; i < len(txt); i++ {
+		switch txt[i] {
+		case '(':
+			depth++
+			if depth == 2 {
+				start = i
+			}
+		case ')':
+			if depth == 2 && start >= 0 {
+				pair := txt[start+1 : i]
+				// value = last whitespace-separated token (or "(_ bvN w)")
+				pair = strings.TrimSpace(pair)
+				var v uint64
+				if strings.HasSuffix(pair, ")") {
+					// (_ bv123 8)
+					j := strings.LastIndex(pair, "(_ bv")
+					if j >= 0 {
+						fmt.Sscanf(pair[j+5:], "%d", &v)
+					}
+				} else {
+					k := strings.LastIndexAny(pair, " \n\t")
+					tok := pair[k+1:]
+					switch {
+					case tok == "true":
+						v = 1
+					case strings.HasPrefix(tok, "#x"):
+						v, _ = strconv.ParseUint(tok[2:], 16, 64)
+					case strings.HasPrefix(tok, "#b"):
+						v, _ = strconv.ParseUint(tok[2:], 2, 64)
+					}
+				}
+				out = append(out, v)
+				start = -1
+			}
+			depth--
+		}
+	}
+	return out
 }
